@@ -267,26 +267,131 @@ func PgRoundTripText(stmt string) string {
 	return decodePrinted(out)
 }
 
-// HasSubLinkRightOperand: the statement has an operator expression whose RIGHT operand is an IN/ANY/ALL
-// sub-select with a test expression, e.g. 1 + (b in (select …)). libpg_query's deparser prints such an operand
-// without parentheses (known finding).
-func HasSubLinkRightOperand(stmt string) bool {
+// PgBooleanOperand: decidable class of the known pg_query finding. The statement has a boolean-valued
+// expression – AND/OR/NOT, an IS [NOT] NULL / IS TRUE test, or an IN/ANY/ALL sub-select with a test
+// expression – as an operand of an operator expression (incl. BETWEEN bounds) or of an IS NULL / IS TRUE test.
+// libpg_query's deparser prints such operands without the parentheses they need
+// (1 + (b in (select …)) → 1 + b IN (SELECT …); (a or b) is null → a OR b IS NULL).
+func PgBooleanOperand(stmt string) bool {
 	tree, err := pg_query.Parse(stmt)
 	if err != nil {
 		return false
 	}
-	found := false
-	var nodes []*pg_query.Node
-	for _, st := range tree.Stmts {
-		nodes = append(nodes, st.Stmt)
+	j, err := pgJSON(tree)
+	if err != nil {
+		return false
 	}
-	_ = pg_query.Walk(func(node *pg_query.Node) (bool, error) {
-		if e := node.GetAExpr(); e != nil && e.Rexpr != nil {
-			if sl := e.Rexpr.GetSubLink(); sl != nil && sl.Testexpr != nil {
-				found = true
+	found := false
+	isBoolNode := func(v interface{}) bool {
+		m, ok := v.(map[string]interface{})
+		if !ok {
+			return false
+		}
+		if n, ok := m["Node"].(map[string]interface{}); ok {
+			m = n
+		}
+		for k, x := range m {
+			switch k {
+			case "BoolExpr", "NullTest", "BooleanTest":
+				return true
+			case "SubLink":
+				if sl, ok := x.(map[string]interface{}); ok && sl["testexpr"] != nil {
+					return true
+				}
 			}
 		}
-		return true, nil
-	}, nodes...)
+		return false
+	}
+	var rec func(v interface{})
+	rec = func(v interface{}) {
+		switch t := v.(type) {
+		case map[string]interface{}:
+			for k, x := range t {
+				if m, ok := x.(map[string]interface{}); ok {
+					switch k {
+					case "AExpr":
+						if isBoolNode(m["lexpr"]) || isBoolNode(m["rexpr"]) {
+							found = true
+						}
+						// LIKE / ILIKE / SIMILAR / BETWEEN / IN … (kind ≠ AEXPR_OP = 1) with an operator expression as operand
+						if kind, _ := m["kind"].(float64); kind != 1 {
+							var hasExpr func(y interface{}) bool
+							hasExpr = func(y interface{}) bool {
+								switch u := y.(type) {
+								case map[string]interface{}:
+									if _, ok := u["AExpr"]; ok {
+										return true
+									}
+									if isBoolNode(u) {
+										return true
+									}
+									if n, ok := u["Node"]; ok {
+										return hasExpr(n)
+									}
+									if l, ok := u["List"]; ok {
+										return hasExpr(l)
+									}
+									if it, ok := u["items"]; ok {
+										return hasExpr(it)
+									}
+								case []interface{}:
+									for _, z := range u {
+										if hasExpr(z) {
+											return true
+										}
+									}
+								}
+								return false
+							}
+							if hasExpr(m["lexpr"]) || hasExpr(m["rexpr"]) {
+								found = true
+							}
+						}
+						// BETWEEN keeps its bounds in a list under rexpr
+						if l, ok := m["rexpr"].(map[string]interface{}); ok {
+							var scan func(y interface{})
+							scan = func(y interface{}) {
+								switch u := y.(type) {
+								case map[string]interface{}:
+									if isBoolNode(u) {
+										found = true
+									}
+									if _, isList := u["List"]; isList || u["Node"] != nil || u["items"] != nil {
+										for _, z := range u {
+											scan(z)
+										}
+									}
+								case []interface{}:
+									for _, z := range u {
+										scan(z)
+									}
+								}
+							}
+							if _, isList := l["Node"].(map[string]interface{})["List"]; isList {
+								scan(l)
+							}
+						}
+					case "NullTest", "BooleanTest":
+						if a, ok := m["arg"].(map[string]interface{}); ok {
+							if n, ok := a["Node"].(map[string]interface{}); ok {
+								if _, ok := n["BoolExpr"]; ok {
+									found = true
+								}
+								if _, ok := n["AExpr"]; ok {
+									found = true
+								}
+							}
+						}
+					}
+				}
+				rec(x)
+			}
+		case []interface{}:
+			for _, x := range t {
+				rec(x)
+			}
+		}
+	}
+	rec(j)
 	return found
 }
